@@ -22,6 +22,8 @@ def example(draw, tier):
     memb = draw(st.integers(0, 1)) if flavor in ("memb", "bp") else 1
     prog, nops, nslots = gen.gp_program(draw, tier, flavor, dynamic=draw(st.booleans()), sync_weight=2, wait_ops=True)
     head = ["scen gp_" + flavor, "cfg membarrier %d" % memb]
+    if flavor in ("bp", "memb") and draw(st.integers(0, 5)) == 0:
+        head.append("cfg early 1")   # the case runs before the library's constructor (first registration initialises the library)
     out = []
     for _ in range(gen.BATCH):
         sched = gen.schedule_lines(draw, tier, len(nops), nops, faults=FAULTS, fault_max=2 if tier == "quick" else 3)
